@@ -136,6 +136,11 @@ def run(report, tier, seed):
     nontrivial = set()
     default_opts = {"retain_coefficients": False, "retain_names": True}
 
+    # functions for which numpy stores the result in the COMMON dtype of the array operands (full_like, insert, copyto,
+    # place ... cast the other operands to the first one's dtype by design)
+    MIXED_OK = {"where", "concatenate", "stack", "hstack", "vstack", "dstack", "append", "choose", "broadcast_arrays"}
+    mixed = {"on": False}
+
     def mk(shape, const=False, nonzero=False):
         if const or rng.random() < 0.08:
             size = int(numpy.prod(shape)) if shape else 1
@@ -146,8 +151,17 @@ def run(report, tier, seed):
             q = gen.rand_poly(rng, tuple(reversed(shape)), names, nterms=rng.choice([1, 2, 3]), maxexp=2, dtype=numpy.int64,
                               raw=rng.random() < 0.2)
             return q.T
-        return gen.rand_poly(rng, tuple(shape), names, nterms=rng.choice([1, 2, 3]), maxexp=2, dtype=numpy.int64,
-                             raw=rng.random() < 0.2)
+        q = gen.rand_poly(rng, tuple(shape), names, nterms=rng.choice([1, 2, 3]), maxexp=2, dtype=numpy.int64,
+                          raw=rng.random() < 0.2)
+        if mixed["on"] and rng.random() < 0.4:
+            # operands of different coefficient dtypes whose values no other operand's dtype can hold: a result that is
+            # stored in one operand's dtype instead of the common one shows up as a wrong element
+            kind = rng.choice(["int8", "wide", "huge", "uint8"])
+            conv = {"int8": lambda c: c.astype(numpy.int8), "wide": lambda c: c * 1000,
+                    "huge": lambda c: c.astype(numpy.float64) * 2.0 ** 70, "uint8": lambda c: numpy.abs(c).astype(numpy.uint8)}[kind]
+            q = numpoly.polynomial_from_attributes(q.exponents, [conv(numpy.asarray(c)) for c in q.coefficients], q.names,
+                                                   retain_coefficients=True, retain_names=True)
+        return q
 
     def judge(fname, argdesc, polys, out_impl, out_idx, o):
         """Compare the implementation's result with numpy's placement; add the Coq cases."""
@@ -231,7 +245,9 @@ def run(report, tier, seed):
                     call_idx = lambda: f(idx)         # noqa: E731
                 else:
                     label = fname
+                    mixed["on"] = fname in MIXED_OK
                     args, kw = E[fname](rng, mk)
+                    mixed["on"] = False
                     iargs = tuple(ops.conv(a) for a in args)
                     ikw = {k: ops.conv(v) for k, v in kw.items()}
                     argdesc = ", ".join([("<poly%s>" % (tuple(a.shape),) if isinstance(a, numpoly.ndpoly) else
